@@ -6,6 +6,7 @@ pub mod c01;
 pub mod c02;
 pub mod c03;
 pub mod c04;
+pub mod c05;
 pub mod c06;
 pub mod c09;
 pub mod c10;
@@ -20,6 +21,7 @@ pub fn dispatch(ctx: &mut Ctx) -> bool {
 		"C02" => c02::run(ctx),
 		"C03" => c03::run(ctx),
 		"C04" => c04::run(ctx),
+		"C05" => c05::run(ctx),
 		"C06" => c06::run(ctx),
 		"C09" => c09::run(ctx),
 		"C10" => c10::run(ctx),
@@ -41,6 +43,7 @@ pub fn confirm(key: &str) -> Option<Option<String>> {
 		"C02" => c02::confirm(key),
 		"C03" => c03::confirm(key),
 		"C04" => c04::confirm(key),
+		"C05" => c05::confirm(key),
 		"C06" => c06::confirm(key),
 		"C09" => c09::confirm(key),
 		"C10" => c10::confirm(key),
